@@ -112,7 +112,11 @@ class PersistentMixin(Module):
                     datatype = self.parameters[pname].datatype
                     # validate: the limits might have changed or the file might be damaged
                     # missing optional struct members are taken from the current (default) value
-                    result[pname] = datatype.validate(datatype.import_value(value), pobj.value)
+                    restored = datatype.validate(datatype.import_value(value), pobj.value)
+                    # a value which can not be exported would make every save fail, e.g. a struct
+                    # within an array lacking a member added in a newer version of the driver
+                    datatype.export_value(restored)
+                    result[pname] = restored
             except Exception as e:
                 # ignore invalid persistent data (in case parameters have changed)
                 self.log.warning('can not restore %r to %r (%r)', pname, value, e)
